@@ -101,6 +101,15 @@ def run_shard(spec):
             for q, o, _ in pipework.variants(p, r, per_op=1, ops=[x for x in pipework.viol.OPS if x["id"] in ("V43", "V60", "V61")]):
                 files.append((q.name, q.text(), "define:" + o["id"]))
                 break
+        # diagnostics with several highlights (lexical ones), and contents that are a single line without any line end
+        # and hold backslash escapes: a command-line string must be taken as it is
+        from nv.checks import c08 as _c08
+        nm, txt = _c08.lexical_error_file(r, "lex%d.c" % spec["shard"])
+        files.append((nm, txt, "lexical"))
+        ONE = ["int\tg_c = '\\n';", "char\t*g_s = \"a\\nb\\tc\";", "# define NL '\\n'", "#define S \"x\\n\"", "int\tf(char *s);\\n",
+               "// a\\nb", "char\tg_q = '\\\\';"]
+        one = ONE[spec["shard"] % len(ONE)]
+        files.append(("one.h" if one.startswith("# ") else "one.c", one, "oneliner"))
         nfull = spec["full"]
         for k, (name, src, kind) in enumerate(files):
             d = os.path.join(tmp, "f%d" % k)
@@ -113,6 +122,8 @@ def run_shard(spec):
                 sh.count("c16.reference_not_a_verdict_skipped")
                 continue
             rows = list(itertools.product(*[range(len(x)) for x in DIMS])) if nfull > 0 and kind == "conf" else pairwise(r)
+            if kind == "oneliner":
+                rows = rows[:3]
             if nfull > 0 and kind == "conf":
                 nfull -= 1
                 sh.tally("runs", "full_product_files")
